@@ -276,8 +276,6 @@ fn enumerate(w: &mut World, prop: &str, seed: u64, extra: &mut BTreeMap<&'static
     let check_data = prop == "C05" || prop == "C12";
     let spans = w.op_spans.clone();
     let syncs = w.sync_points.clone();
-    let mut kf05: Option<String> = None;
-    let mut kf05_data: Option<String> = None;
     let mut kf08: Option<String> = None;
     'outer: for k in points {
         let cp = tl.at(k);
@@ -306,63 +304,6 @@ fn enumerate(w: &mut World, prop: &str, seed: u64, extra: &mut BTreeMap<&'static
             match &wk {
                 Err(e) => v.fatal = Some(e.clone()),
                 Ok(wk) => qspec::check_walk(&img, wk, false, &mut v),
-            }
-            if v.first_problem(true).is_some() && v.fatal.is_none() {
-                // Known findings about the order in which mappings and
-                // refcounts reach the disk.  Their effect is a mapping on
-                // disk that should not be there (yet / any more); drop such
-                // mappings from the reference count and judge again.
-                //  KF05: discard releases the refcount in memory at once and
-                //        refcounts are flushed before mappings, so a guest
-                //        cluster that a discard (issued before the crash)
-                //        covers may still be mapped on disk to a host cluster
-                //        that is free - or already somebody else's.
-                let discarded = |g: u64| {
-                    spans.iter().any(|s| {
-                        s.base.is_none() && s.start_seq <= k && {
-                            let end = s.off.saturating_add(s.len).min(vsize);
-                            g >= s.off.div_ceil(cs) && g < end / cs
-                        }
-                    })
-                };
-                let wk = wk.as_ref().unwrap();
-                {
-                    let mut w2 = qspec::Walk {
-                        hdr: wk.hdr.clone(),
-                        owners: wk.owners.clone(),
-                        structural: wk.structural.clone(),
-                        guest: wk.guest.clone(),
-                        l1: wk.l1.clone(),
-                        reftable: wk.reftable.clone(),
-                    };
-                    for (_cl, o) in w2.owners.iter_mut() {
-                        o.retain(|x| match x {
-                            qspec::Owner::Data(g) | qspec::Owner::ZeroPrealloc(g) => !discarded(*g),
-                            _ => true,
-                        });
-                    }
-                    w2.owners.retain(|_, o| !o.is_empty());
-                    let mut v2 = qspec::Verdict::default();
-                    qspec::check_walk(&img, &w2, false, &mut v2);
-                    if std::env::var("QSIM_DEBUG_KF").is_ok() {
-                        eprintln!(
-                            "k={k} choice={} kf05 orig={:?} after={:?}",
-                            c.name,
-                            v.first_problem(true),
-                            v2.first_problem(true)
-                        );
-                    }
-                    if v2.first_problem(true).is_none() {
-                        let d = format!(
-                            "{}\n  checker: {}",
-                            describe_point(&tl, &cp, c),
-                            v.first_problem(true).unwrap().1
-                        );
-                        *extra.entry("kf05_forgiven_images").or_insert(0) += 1;
-                        kf05.get_or_insert(d);
-                        v = v2;
-                    }
-                }
             }
             if let Some((class, d)) = v.first_problem(true) {
                 // re-judge under the literal durability rule
@@ -418,15 +359,6 @@ fn enumerate(w: &mut World, prop: &str, seed: u64, extra: &mut BTreeMap<&'static
                         }
                         Ok(buf) => {
                             if let (Some(sp), true) = (sp, check_data) {
-                                // KF05: a cluster discarded after the sync
-                                // may read anything once its host cluster
-                                // has been re-used
-                                let disc = spans.iter().any(|s| {
-                                    s.base.is_none() && s.end_seq >= sp.alt_from && s.start_seq <= k && {
-                                        let end = s.off.saturating_add(s.len).min(vsize);
-                                        *g >= s.off.div_ceil(cs) && *g < end / cs
-                                    }
-                                });
                                 // KF08: a cluster that gets its first own
                                 // allocation from a write issued after the
                                 // sync is mapped before it is zeroed /
@@ -457,23 +389,11 @@ fn enumerate(w: &mut World, prop: &str, seed: u64, extra: &mut BTreeMap<&'static
                                         Some(id) => allowed.contains(&id),
                                         None => false,
                                     };
-                                    if !ok && fresh && !disc {
+                                    if !ok && fresh {
                                         problems.push((
                                             "kf08".into(),
                                             format!(
                                                 "guest sector {sec} (cluster {g}, first allocated by a write issued after the sync at event {}) reads {} after the crash; allowed: {:x?}",
-                                                sp.seq,
-                                                content::describe(bytes),
-                                                allowed
-                                            ),
-                                        ));
-                                        break;
-                                    }
-                                    if !ok && disc {
-                                        problems.push((
-                                            "kf05".into(),
-                                            format!(
-                                                "guest sector {sec} (cluster {g}, discarded after the sync at event {}) reads {} after the crash; allowed: {:x?}",
                                                 sp.seq,
                                                 content::describe(bytes),
                                                 allowed
@@ -522,12 +442,6 @@ fn enumerate(w: &mut World, prop: &str, seed: u64, extra: &mut BTreeMap<&'static
                 }
                 Ok(problems) => {
                     let mut problems = problems;
-                    if let Some(i) = problems.iter().position(|(s, _)| s == "kf05") {
-                        let (_, d) = problems[i].clone();
-                        problems.retain(|(s, _)| s != "kf05");
-                        *extra.entry("kf05_data_images").or_insert(0) += 1;
-                        kf05_data.get_or_insert(format!("{}\n  {d}", describe_point(&tl, &cp, c)));
-                    }
                     if let Some(i) = problems.iter().position(|(s, _)| s == "kf08") {
                         let (_, d) = problems[i].clone();
                         problems.retain(|(s, _)| s != "kf08");
@@ -552,20 +466,6 @@ fn enumerate(w: &mut World, prop: &str, seed: u64, extra: &mut BTreeMap<&'static
         }
     }
     let _ = json!(null);
-    if let Some(d) = kf05 {
-        w.viol_nonfatal(
-            &["C04", "C12"],
-            "crash-image/discarded-cluster-still-mapped-on-disk",
-            d,
-        );
-    }
-    if let Some(d) = kf05_data {
-        w.viol_nonfatal(
-            &["C05", "C12"],
-            "crash-image/discarded-cluster-reads-foreign-data",
-            d,
-        );
-    }
     if let Some(d) = kf08 {
         w.viol_nonfatal(
             &["C05", "C12"],
